@@ -8,6 +8,7 @@ import (
 	"bufio"
 	"fmt"
 	"os"
+	"runtime/debug"
 	"strconv"
 	"strings"
 	"testing"
@@ -49,6 +50,10 @@ func TestCorr(t *testing.T) {
 		e := e2.New(d, t)
 		e.CurFile = out + ".cur"
 		e.Oracles = e2.OraclesFor(arg("-props"))
+		if arg("-props") == "C07" {
+			e.Wild = true
+			debug.SetMaxStack(64 << 20) // an endless recursion dies after 64 MB, not 1 GB
+		}
 		if v := arg("-variant"); v != "" {
 			e.Variant = v
 		}
